@@ -50,7 +50,14 @@ func gen(g *kernel.Rng, seed uint64, tier string) *kernel.Plan {
 		if wb == 1 && sz > 40 {
 			sz = int64(g.Range(0, 40))
 		}
-		p.Ops = append(p.Ops, kernel.Op{K: "d", T: 0, N: []int64{int64(g.Range(1, 2)), sz, int64(g.Pick(3, 2, 1)), int64(g.U32())}})
+		typ := int64(g.Range(1, 2))
+		if g.Bool(0.07) {
+			// the data writer sends a Close through its own message APIs
+			typ, sz = 8, g.OneOf(0, 5, 40, 123)
+		}
+		// N[4], N[5]: the data writer's SetWriteDeadline before this message
+		// (0 untouched, 1 one hour, 2 N[5] milliseconds, 3 reset to none)
+		p.Ops = append(p.Ops, kernel.Op{K: "d", T: 0, N: []int64{typ, sz, int64(g.Pick(3, 2, 1)), int64(g.U32()), int64(g.Pick(8, 2, 2, 1)), g.OneOf(1, 500, 1500, 3000)}})
 	}
 	closes := 0
 	for k := 1; k <= nk; k++ {
@@ -124,7 +131,7 @@ func run(p *kernel.Plan) (res *kernel.Result) {
 	for _, o := range p.Ops {
 		switch o.K {
 		case "d":
-			if len(o.N) < 4 || o.N[1] < 0 || o.N[1] > 100000 || o.T != 0 {
+			if len(o.N) < 4 || o.N[1] < 0 || o.N[1] > 100000 || o.T != 0 || (o.N[0] != 1 && o.N[0] != 2 && o.N[0] != 8) || (o.N[0] == 8 && o.N[1] > 123) {
 				res.Invalid = true
 				return
 			}
@@ -201,6 +208,10 @@ func run(p *kernel.Plan) (res *kernel.Result) {
 		case "d":
 			whats[i] = fmt.Sprintf("data#%d(%dB,api%d)", i, op.N[1], op.N[2])
 			hdrs[i] = []byte(fmt.Sprintf("<%03d>", i))
+			if op.N[0] == 8 {
+				ctlPay[i] = ctlPayload(i, int(op.N[1]), op.N[3])
+				whats[i] = fmt.Sprintf("close-by-data-writer#%d(%dB,api%d)", i, len(ctlPay[i]), op.N[2])
+			}
 		case "k":
 			ctlPay[i] = ctlPayload(i, int(op.N[1]), op.N[4])
 			whats[i] = fmt.Sprintf("control#%d(kind %d,%dB,deadline %d)", i, op.N[0], len(ctlPay[i]), op.N[2])
@@ -233,6 +244,8 @@ func run(p *kernel.Plan) (res *kernel.Result) {
 			return
 		}
 		c := under
+		var ddl time.Time // the data writer's write deadline in force
+		ddlKind := int64(0)
 		for i, op := range p.Ops {
 			if op.K != "d" {
 				continue
@@ -247,8 +260,40 @@ func run(p *kernel.Plan) (res *kernel.Result) {
 			if len(data) >= len(hdr) {
 				copy(data, hdr)
 			}
-			cl := call{task: 0, what: whats[i], step0: s.Now(), data: data, typ: typ, completes: true}
-			switch op.N[2] {
+			dk := int64(0)
+			if len(op.N) > 5 {
+				dk = op.N[4]
+			}
+			if dk != 0 {
+				ddlKind = dk
+			}
+			switch dk {
+			case 1:
+				ddl = time.Now().Add(time.Hour)
+				c.SetWriteDeadline(ddl)
+			case 2:
+				ddl = time.Now().Add(time.Duration(op.N[5]) * time.Millisecond)
+				if raceEngine {
+					ddl = time.Now().Add(time.Hour) // real clock: no tight deadlines
+				}
+				c.SetWriteDeadline(ddl)
+			case 3:
+				ddl = time.Time{}
+				c.SetWriteDeadline(ddl)
+			}
+			var tag []byte
+			if typ == websocket.CloseMessage {
+				tag = ctlPay[i]
+				data = websocket.FormatCloseMessage(1000, string(tag))
+			}
+			cl := call{task: 0, what: whats[i], step0: s.Now(), data: data, typ: typ, completes: true, kind: typ, tag: tag, deadlineKind: ddlKind}
+			api := op.N[2]
+			if typ == websocket.CloseMessage && int64(len(data)) > p.C("wb") {
+				// a control frame that does not fit the write buffer cannot go
+				// through the streaming APIs (a rule of the API, not a failure)
+				api = 2
+			}
+			switch api {
 			case 0:
 				cl.err = c.WriteMessage(typ, data)
 			case 1:
@@ -273,6 +318,7 @@ func run(p *kernel.Plan) (res *kernel.Result) {
 				}
 			}
 			cl.step1 = s.Now()
+			cl.expired = !ddl.IsZero() && !time.Now().Before(ddl)
 			rec(t, cl)
 		}
 	})
@@ -520,11 +566,19 @@ func run(p *kernel.Plan) (res *kernel.Result) {
 	// data messages: those whose call returned nil are on the wire, intact, in order
 	var okData []call
 	var allData []call
+	var ctlCalls []call // control senders' calls and the data writer's Close messages
 	for _, c := range calls[0] {
+		if c.typ == websocket.CloseMessage {
+			ctlCalls = append(ctlCalls, c)
+			continue
+		}
 		allData = append(allData, c)
 		if c.err == nil {
 			okData = append(okData, c)
 		}
+	}
+	for tk := 1; tk <= maxK; tk++ {
+		ctlCalls = append(ctlCalls, calls[tk+1]...)
 	}
 	mi := 0
 	for _, c := range allData {
@@ -544,6 +598,50 @@ func run(p *kernel.Plan) (res *kernel.Result) {
 		return res.Fail("C15/data-message-unknown", "the wire holds a data message (type %d, %d bytes %q…) that matches no write in order", msgs[mi].Type, len(msgs[mi].Payload), clipb(msgs[mi].Payload))
 	}
 	res.Stat("data_messages_on_wire", int64(len(msgs)))
+	// a failing call of the data writer needs a reason: its own deadline, a
+	// transport write that timed out on its caller's deadline (the connection is
+	// unusable from then on), Close() by the closer, or a Close frame sent
+	{
+		closerAt, closeCallAt, peerClose := -1, -1, false
+		for _, cs := range calls {
+			for _, c := range cs {
+				if c.what == "Close()" && (closerAt < 0 || c.step0 < closerAt) {
+					closerAt = c.step0
+				}
+				if c.kind == websocket.CloseMessage && (closeCallAt < 0 || c.step0 < closeCallAt) {
+					closeCallAt = c.step0
+				}
+			}
+		}
+		for _, op := range p.Ops {
+			if op.K == "p" && op.N[0] == 8 {
+				peerClose = true // the reader echoes it: a Close frame written from the reading goroutine
+			}
+		}
+		sticky := false
+		for _, c := range calls[0] {
+			if c.err == nil {
+				continue
+			}
+			res.Stat("data_writer_calls_failed", 1)
+			ok := sticky || c.expired
+			for _, st := range eConn.OwnTimeoutSteps {
+				if st <= c.step1 {
+					ok = true
+				}
+			}
+			if closerAt >= 0 && closerAt <= c.step1 {
+				ok = true
+			}
+			if c.err == websocket.ErrCloseSent && (peerClose || (closeCallAt >= 0 && closeCallAt <= c.step1)) {
+				ok = true
+			}
+			if !ok {
+				return res.Fail("C15/data-write-failed", "%s (steps %d..%d) failed with %v although no Close frame had been sent, the connection was not closed and neither its own deadline nor any caller's own transport deadline had expired (transport write timeouts: %d, under another call's deadline: %d)", c.what, c.step0, c.step1, c.err, eConn.Timeouts, eConn.ForeignTimeouts)
+			}
+			sticky = true
+		}
+	}
 	// control frames: nil-returning calls appear exactly once, failing calls never
 	seen := map[string]int{}
 	pongsOnWire := 0
@@ -562,8 +660,8 @@ func run(p *kernel.Plan) (res *kernel.Result) {
 	if closeIdx >= 0 {
 		closeFrameStep = eOut.StepReached(int64(hs + frames[closeIdx].End))
 	}
-	for tk := 1; tk <= maxK; tk++ {
-		for _, c := range calls[tk+1] {
+	{
+		for _, c := range ctlCalls {
 			n := seen[string(c.tag)]
 			delete(seen, string(c.tag))
 			isTimeout := c.err != nil && c.err != websocket.ErrCloseSent && (c.err.Error() == "websocket: write timeout" || c.expired)
